@@ -47,7 +47,8 @@ def gen(streams, tier, i, over=None):
     k = G.swarm_knobs(cfg)
     version = cfg.choice(["gfa2", "gfa2", "gfa1"])
     k.update({"max_seg": cfg.choice([2, 3, 4]), "max_edge": cfg.choice([4, 8]), "max_link": cfg.choice([4, 8]),
-              "max_cont": 3, "max_gap": 3, "etypes": ["any", "dovetail", "cont", "internal"], "p_self": cfg.choice([0.1, 0.4])})
+              "max_cont": 3, "max_gap": 3, "etypes": ["any", "dovetail", "cont", "internal"], "p_self": cfg.choice([0.1, 0.4]),
+              "self_cont": cfg.random() < 0.5})
     if over:
         k.update(over)
     doc = G.gen_doc(dr, k, version)
@@ -71,7 +72,13 @@ def gen(streams, tier, i, over=None):
         ns = m.namespace()
         names = sorted(ns)
         r = hr.random()
-        if r < 0.3 and names:
+        anon = [x for x in m.recs if x.rt in ("L", "C", "E", "G", "F") and (m.name_of(x) is None or x.rt in ("L", "C"))]
+        if r < 0.12 and anon:
+            rec = hr.choice(anon)
+            ops.append({"op": "rm", "text": rec.render(), "how": hr.choice(["rm_obj", "disconnect"])})
+            for x in m.remove([rec]):
+                removed.append(x.render())
+        elif r < 0.3 and names:
             nm = hr.choice(names)
             rec = ns[nm][0]
             if rec.rt in ("L", "C"):
